@@ -118,23 +118,6 @@ CLAIMED = {
              "is per-program translation validation, not a theorem about compiler.py.",
         design_ref="§5 C18",
     ),
-    "C21": dict(
-        category="proof",
-        technique="Lean 4 proof by complete finite enumeration (decide +kernel) that the special-method table read from "
-                  "runtime.py by a Python-ast translator, resolved through Python's dispatch rules, equals the documented "
-                  "operation table + exhaustive runs on the real classes and through templates",
-        text="Theorem undef_table_eq (Props/C21.lean): for all 8 undefined kinds (default, chainable, debug, strict and "
-             "their logging variants) and all 38 operations (print, truth, sync/async iteration, containment, length, "
-             "equality, hash, repr, __html__, 14 arithmetic operators in both operand orders, unary, 4 comparisons, "
-             "int/float/complex, attribute, dunder attribute, item, call) the outcome obtained by MRO resolution over "
-             "the regenerated class table equals the documented table; the enumeration is proved complete. Tie: the "
-             "table is re-read every run; the correspondence is exhaustive too: kinds x operations x 4 origins x 6 "
-             "operands on real objects, copy/deepcopy/pickle, and templates in sync and async environments; error "
-             "messages must name the missing variable/attribute.",
-        note="Trusted: Lean kernel; translator (body-shape classification); Python's reflected-operator dispatch as "
-             "modelled; log records of the logging variants are not part of the compared outcome.",
-        design_ref="§5 C21",
-    ),
     "C28": dict(
         category="proof",
         technique="Lean 4 proofs about the model of split_template_path / posixpath.join / choice and prefix dispatch "
